@@ -3,6 +3,7 @@ From Coq Require Import List NArith ZArith Bool String.
 From P9 Require Import Base.Sexp Base.Res Base.Bytes Model.WireTypes Model.Spec9P Model.Wire Run.WireSexp.
 Import ListNotations.
 Open Scope string_scope.
+Open Scope N_scope.
 
 Definition run_case (c : sexp) : sexp :=
   if head_is c "enc" then
@@ -16,6 +17,16 @@ Definition run_case (c : sexp) : sexp :=
     sexp_of_res (fun x => [SList (map sexp_of_fval (fst x)); snat (len (snd x))]) (decode_dir (get_bytes (arg c 0)))
   else if head_is c "encdir" then
     SBytes (enc_dir (map fval_of_sexp (get_list (arg c 0))))
+  else if head_is c "alloc" then
+    (* the measured allocation is part of the case; the model accepts it when it is within
+       4096 + 64*len + 4*(what the code requests on this path) *)
+    let bs := get_bytes (arg c 0) in
+    let a := alloc_fcall bs in
+    if get_N (arg c 1) <=? 4096 + 64 * len bs + 4 * a then ssym "ok" else SList [ssym "reject"; snat a]
+  else if head_is c "allocdir" then
+    let bs := get_bytes (arg c 0) in
+    let a := alloc_decode_dir bs in
+    if get_N (arg c 1) <=? 4096 + 64 * len bs + 4 * a then ssym "ok" else SList [ssym "reject"; snat a]
   else SList [ssym "unknown-case"].
 
 Definition run_line (line : list N) : list N := print_sexp (run_case (parse_sexp line)).
